@@ -101,6 +101,10 @@ def rule_grad(repo: Repo, rep: Report) -> int:
                 rep.violation("GRAD", f, f"{prefix}{unparse(node)[:80]}", f"{how} writes into the storage of the input `{sig}`: the caller's tensor (an encoder output saved for backward, or a leaf) is modified in place", node=node)
             else:
                 rep.violation("GRAD", f, f"{prefix}{unparse(node)[:80]}", f"{how} modifies a tensor that `{unparse(site)[:60]}` (line {getattr(site, 'lineno', '?')}) saved for the backward pass: backward() raises 'modified by an inplace operation'", node=node)
+        for node, f in v.narrowing:
+            rep.violation("GRAD", f, f"{prefix}{unparse(node)[:80]}", "the signal itself is cast to a fixed single-precision dtype: a float64 / complex128 input is rounded to float32 on the way, the output has another precision than the input, and the gradient no longer matches finite differences taken in the input's precision", node=node)
+        for node, f in v.unguarded_div:
+            rep.violation("GRAD", f, f"{prefix}{unparse(node)[:80]}", f"a signal-derived value is divided by a signal-derived quantity that is not bounded away from zero (`{unparse(node.right)[:50]}`): where it vanishes (zero samples, zero power) the quotient is 0/0 = NaN, and through torch.where / a zero factor the NaN reaches the input gradient even when the forward value is unaffected", node=node)
         for node, how in v.benign_inplace:
             if (id(node)) in done:
                 continue
